@@ -145,6 +145,43 @@ theorem fold_core (h : ι → R) (W : ι → ι → R) (hW : ∀ i j, W i j = W 
 
 end fold
 
+/-! ## folding a frozen core, unrestricted reference (different frozen sets for alpha and beta) -/
+section foldU
+open Finset
+variable {R : Type} [CommRing R] {ι : Type} [DecidableEq ι]
+
+/-- unrestricted mean-field functional of a determinant with alpha orbitals `Oa` and beta orbitals `Ob`:
+    Σ_α hα + Σ_β hβ + Σ_{αα} Wαα + Σ_{ββ} Wββ + Σ_{αβ} Jαβ   (Wσσ = ½(J − K) of that spin, symmetric) -/
+def emfU (ha hb : ι → R) (Waa Wbb Jab : ι → ι → R) (Oa Ob : Finset ι) : R :=
+  ∑ i ∈ Oa, ha i + ∑ i ∈ Ob, hb i + ∑ i ∈ Oa, ∑ j ∈ Oa, Waa i j + ∑ i ∈ Ob, ∑ j ∈ Ob, Wbb i j + ∑ i ∈ Oa, ∑ j ∈ Ob, Jab i j
+
+/-- **frozen-core folding, unrestricted**: with *different* frozen sets for the two spins, the energy of
+    (core ∪ active) is the core constant - which contains the alpha-beta Coulomb repulsion between the frozen alpha and
+    the frozen beta orbitals - plus the active functional whose one-body parts carry the field of the core: same-spin
+    Coulomb/exchange of the frozen orbitals of that spin and the Coulomb field of the frozen orbitals of the other -/
+theorem fold_core_uhf (ha hb : ι → R) (Waa Wbb Jab : ι → ι → R)
+    (hWa : ∀ i j, Waa i j = Waa j i) (hWb : ∀ i j, Wbb i j = Wbb j i)
+    (Fa Aa Fb Ab : Finset ι) (hda : Disjoint Fa Aa) (hdb : Disjoint Fb Ab) :
+    emfU ha hb Waa Wbb Jab (Fa ∪ Aa) (Fb ∪ Ab) =
+      emfU ha hb Waa Wbb Jab Fa Fb +
+      emfU (fun p => ha p + 2 * ∑ i ∈ Fa, Waa p i + ∑ j ∈ Fb, Jab p j)
+           (fun p => hb p + 2 * ∑ i ∈ Fb, Wbb p i + ∑ i ∈ Fa, Jab i p) Waa Wbb Jab Aa Ab := by
+  unfold emfU
+  rw [sum_union hda, sum_union hdb, sum_union hda, sum_union hdb, sum_union hda]
+  have ea : ∀ i, ∑ j ∈ Fa ∪ Aa, Waa i j = ∑ j ∈ Fa, Waa i j + ∑ j ∈ Aa, Waa i j := fun i => sum_union hda
+  have eb : ∀ i, ∑ j ∈ Fb ∪ Ab, Wbb i j = ∑ j ∈ Fb, Wbb i j + ∑ j ∈ Ab, Wbb i j := fun i => sum_union hdb
+  have ej : ∀ i, ∑ j ∈ Fb ∪ Ab, Jab i j = ∑ j ∈ Fb, Jab i j + ∑ j ∈ Ab, Jab i j := fun i => sum_union hdb
+  simp only [ea, eb, ej, sum_add_distrib]
+  have ca : ∑ i ∈ Fa, ∑ j ∈ Aa, Waa i j = ∑ p ∈ Aa, ∑ i ∈ Fa, Waa p i := by
+    rw [sum_comm]; apply sum_congr rfl; intro p _; apply sum_congr rfl; intro i _; exact hWa i p
+  have cb : ∑ i ∈ Fb, ∑ j ∈ Ab, Wbb i j = ∑ p ∈ Ab, ∑ i ∈ Fb, Wbb p i := by
+    rw [sum_comm]; apply sum_congr rfl; intro p _; apply sum_congr rfl; intro i _; exact hWb i p
+  have cj : ∑ i ∈ Fa, ∑ j ∈ Ab, Jab i j = ∑ p ∈ Ab, ∑ i ∈ Fa, Jab i p := sum_comm
+  rw [ca, cb, cj]
+  simp only [← mul_sum]
+  ring
+end foldU
+
 /-! ## non-vacuity -/
 example : partition [2, 2, 1, 0, 0] (.list [0, 4, -1, 9]) = some ⟨[1, 2], [0], [3], [4]⟩ := by decide
 example : partition [2, 2, 0] (.list [2]) = none := by decide
